@@ -218,7 +218,7 @@ def build():
         return I.new_list([VStr(z3.String("%s.ev%d" % (name, i))) for i in range(n)], name)
     MACHINE = ObjS("MachineController", events=ObjS("EventManager"), game=Opt(ObjS("Game")),
                    mode_controller=ObjS("ModeControllerI", start_methods=Init(lambda I, n: I.new_list([], n))),
-                   switch_controller=ObjS("SwitchController"), is_shutting_down=Bool)
+                   switch_controller=ObjS("SwitchController"), is_shutting_down=Bool, delay=common.DelayMgr)
     C.cls("LogMixin", fields={})
     C.cls("Mode", file=MODE, bases=["LogMixin"], fields=dict(
         config=Rec(mode=Rec(game_mode=Bool, use_wait_queue=Bool, priority=Int, stop_priority=Int,
@@ -420,8 +420,19 @@ def build():
                    "all_devices_removed() and len(self.mode_devices) == 0")],
          modifies=["self.mode_devices"], raises={}, inline_calls=True, bounded=B2)
     C.fn("Mode._control_event_handler", params=dict(callback=Fn, ms_delay=Int, kwargs=Opaque("Kwargs")),
-         ensures=[("a delayed control event is a delay of the mode (cleared when the mode stops)", "True")],
+         ensures=[("L5: a delayed control event is a delay of THIS mode's delay manager (cleared when the mode stops), "
+                   "with the configured delay and callback", "own_delay_added(ms_delay, callback)")],
          modifies=["self.delay.pending.**"], raises={})
+
+    def own_delay_added(I, ms, cb):
+        this = I.frames[0].env["self"].ref
+        dm = I.force(I.read_field(this, "delay")).ref
+        evs = events_named(I, "delay.add")
+        if len(evs) != 1 or evs[0].args["dm"] is not dm:
+            return VBool(False)
+        return VBool(z3.And(I.eq(evs[0].args["ms"], ms), I.eq(evs[0].args["callback"], cb)))
+    C.helpers["own_delay_added"] = own_delay_added
+    C.trace_helpers |= {"own_delay_added"}
 
     # ---- lifecycle
     CAN_START = "(not (self.config['mode']['game_mode'] and not (self.machine.game and self.player)) and " \
